@@ -32,7 +32,24 @@ const URLS: &[&str] = &[
     "https://euw1-1.relay.iroh.network./",
 ];
 
-fn gen_url(rng: &mut Rng) -> String {
+const PLAIN_URLS: &[&str] = &[
+    "https://example.com",
+    "https://relay.example.org./",
+    "http://10.0.0.1:3340/path",
+    "https://bücher.example/",
+    "https://[2001:db8::1]:8443/",
+    "https://euw1-1.relay.iroh.network./",
+    "https://example.com/?q",
+];
+
+fn gen_url(rng: &mut Rng, plain: bool) -> String {
+    if plain {
+        return if rng.chance(1, 3) {
+            format!("https://r{}.example.com./", rng.below(100))
+        } else {
+            rng.pick(PLAIN_URLS).to_string()
+        };
+    }
     match rng.below(12) {
         0 => {
             // long URL: around the 255-byte TXT limit ("relay=" + url)
@@ -96,7 +113,11 @@ const CLASSES: &[&str] = &[
     "\u{7f}", "\u{1}", "\n", "%", "&", "'", "/", ":", "?",
 ];
 
-fn gen_user_data(rng: &mut Rng) -> String {
+fn gen_user_data(rng: &mut Rng, plain: bool) -> String {
+    if plain {
+        let n = rng.range(0, 30) as usize;
+        return (0..n).map(|_| *rng.pick(&["a", "Z", "0", " ", "\"", "é", "日", "-", ";"])).collect();
+    }
     let target = match rng.below(12) {
         0 => 0usize,
         1 => 1,
@@ -130,17 +151,29 @@ fn gen_user_data(rng: &mut Rng) -> String {
 
 fn generate(rng: &mut Rng, _i: u64, _n: u64) -> String {
     let mut toks = vec![format!("s:{}", hex(&rng.bytes(32)))];
-    toks.push(if rng.chance(1, 4) {
+    if rng.chance(1, 25) {
+        // DNS packet size at the limit: 12 + (60+11+187) + 3*(2+11+187) + (2+11+10+L) = 893 + L,
+        // so user data of 106 / 107 / 108 bytes gives 999 / 1000 / 1001 bytes
+        let l = *rng.pick(&[106usize, 107, 108]);
+        toks.push(format!("u:{}", hex("a".repeat(l).as_bytes())));
+        for _ in 0..4 {
+            toks.push(format!("c:1:{}", hex(&rng.bytes(90))));
+        }
+        return toks.join(" ");
+    }
+    // a third of the cases carry no '=' in any value
+    let plain = rng.chance(1, 3);
+    toks.push(if rng.chance(1, 3) {
         "u:-".to_string()
     } else {
-        format!("u:{}", hex(gen_user_data(rng).as_bytes()))
+        format!("u:{}", hex(gen_user_data(rng, plain).as_bytes()))
     });
     // up to 8 addresses of every kind; mostly few so that the packet fits
     let maxk = if rng.chance(1, 6) { 8 } else { 3 };
     let (nr, ni, nc) = (rng.range(0, maxk), rng.range(0, maxk), rng.range(0, maxk));
     let mut addrs: Vec<String> = Vec::new();
     for _ in 0..nr {
-        addrs.push(format!("r:{}", hex(gen_url(rng).as_bytes())));
+        addrs.push(format!("r:{}", hex(gen_url(rng, plain).as_bytes())));
     }
     for _ in 0..ni {
         if rng.chance(1, 150) {
@@ -153,7 +186,7 @@ fn generate(rng: &mut Rng, _i: u64, _n: u64) -> String {
             addrs.push(format!("i:{}", hex(gen_ip(rng).as_bytes())));
         }
     }
-    for _ in 0..nc {
+    for _ in 0..(if plain && rng.chance(1, 2) { 0 } else { nc }) {
         addrs.push(gen_custom(rng));
     }
     // occasional duplicate
@@ -170,21 +203,66 @@ fn generate(rng: &mut Rng, _i: u64, _n: u64) -> String {
     toks.join(" ")
 }
 
-fn coq_addr(a: &TransportAddr) -> String {
+/// Byte strings that occur several times in a term are bound once by `let`
+/// (elaborating long literals dominates the evaluation cost inside Coq).
+#[derive(Default)]
+struct Tab {
+    items: std::cell::RefCell<Vec<Vec<u8>>>,
+}
+
+impl Tab {
+    fn b(&self, v: &[u8]) -> String {
+        if v.len() < 6 {
+            return coq_hex(v);
+        }
+        let mut items = self.items.borrow_mut();
+        let k = match items.iter().position(|x| x == v) {
+            Some(k) => k,
+            None => {
+                items.push(v.to_vec());
+                items.len() - 1
+            }
+        };
+        format!("s{k}")
+    }
+    fn s(&self, v: &str) -> String {
+        self.b(v.as_bytes())
+    }
+    /// a "key=value" string: rendered as literal "key=" ++ shared value when the value is shared
+    fn kv(&self, v: &str) -> String {
+        if let Some((k, val)) = v.split_once('=') {
+            if val.len() >= 6 && self.items.borrow().iter().any(|x| x == val.as_bytes()) {
+                return format!("({} ++ {})", coq_hex(format!("{k}=").as_bytes()), self.s(val));
+            }
+        }
+        self.s(v)
+    }
+    fn wrap(&self, body: String) -> String {
+        let mut out = String::from("(");
+        for (k, v) in self.items.borrow().iter().enumerate() {
+            out.push_str(&format!("let s{k} := {} in ", coq_hex(v)));
+        }
+        out.push_str(&body);
+        out.push(')');
+        out
+    }
+}
+
+fn coq_addr(t: &Tab, a: &TransportAddr) -> String {
     match a {
-        TransportAddr::Relay(u) => format!("C31.Relay {}", coq_str_bytes(&u.to_string())),
-        TransportAddr::Ip(a) => format!("C31.Ip {}", coq_str_bytes(&a.to_string())),
-        TransportAddr::Custom(c) => format!("C31.Custom {} {}", c.id(), coq_hex(c.data())),
+        TransportAddr::Relay(u) => format!("C31.Relay {}", t.s(&u.to_string())),
+        TransportAddr::Ip(a) => format!("C31.Ip {}", t.s(&a.to_string())),
+        TransportAddr::Custom(c) => format!("C31.Custom {} {}", c.id(), t.b(c.data())),
         _ => "C31.Custom 0 []".to_string(),
     }
 }
 
-fn coq_info(i: &EndpointInfo) -> String {
+fn coq_info(t: &Tab, i: &EndpointInfo) -> String {
     format!(
         "(C31.mkInfo {} {} {})",
-        coq_hex(i.endpoint_id.as_bytes()),
-        coq_list(i.addrs(), coq_addr),
-        coq_opt(i.user_data(), |u| coq_str_bytes(u.as_ref()))
+        t.b(i.endpoint_id.as_bytes()),
+        coq_list(i.addrs(), |a| coq_addr(t, a)),
+        coq_opt(i.user_data(), |u| t.s(u.as_ref()))
     )
 }
 
@@ -253,15 +331,17 @@ fn run(raw: &str) -> (String, String) {
 
     // what the value looks like before user data is attached (the model input)
     let in_info = EndpointInfo::from_parts(id, data.clone());
-    let coq_in_addrs = coq_list(in_info.addrs(), coq_addr);
-    let coq_ud_raw = coq_opt(ud_raw.as_ref(), |s| coq_str_bytes(s));
+    let ti = Tab::default();
+    let to = Tab::default();
+    let coq_in_addrs = coq_list(in_info.addrs(), |a| coq_addr(&ti, a));
+    let coq_ud_raw = coq_opt(ud_raw.as_ref(), |s| ti.s(s));
 
     let ud: Result<Option<UserData>, ()> = match &ud_raw {
         None => Ok(None),
         Some(s) => UserData::from_str(s).map(Some).map_err(|_| ()),
     };
 
-    let mut oracle_strings: Vec<String> = Vec::new();
+    let mut oracle_strings: Vec<String> = in_info.to_txt_strings();
     let out = match ud {
         Err(()) => "(Err 9)".to_string(),
         Ok(ud) => {
@@ -291,15 +371,16 @@ fn run(raw: &str) -> (String, String) {
                 Caught::Value((strings, txt, pkt)) => {
                     oracle_strings = strings.clone();
                     let f = |r: &Result<EndpointInfo, u64>| match r {
-                        Ok(i) => format!("(Ok {})", coq_info(i)),
+                        Ok(i) => format!("(Ok {})", coq_info(&to, i)),
                         Err(e) => format!("(Err {e})"),
                     };
-                    format!(
-                        "(Ok (C31.mkOut {} {} {}))",
-                        coq_list(strings.iter(), |s| coq_str_bytes(s)),
-                        f(&txt),
-                        f(&pkt)
-                    )
+                    let (ft, fp) = (f(&txt), f(&pkt));
+                    to.wrap(format!(
+                        "Ok (C31.mkOut {} {} {})",
+                        coq_list(strings.iter(), |s| to.kv(s)),
+                        ft,
+                        fp
+                    ))
                 }
             }
         }
@@ -321,21 +402,21 @@ fn run(raw: &str) -> (String, String) {
         let u = url::Url::parse(c).ok().map(|u| RelayUrl::from(u).to_string());
         let a = SocketAddr::from_str(c).ok().map(|a| a.to_string());
         format!(
-            "({}, {}, {})",
-            coq_str_bytes(c),
-            coq_opt(u, |u| coq_str_bytes(&u)),
-            coq_opt(a, |a| coq_str_bytes(&a))
+            "(C31.oe {} {} {})",
+            ti.s(c),
+            coq_opt(u, |u| ti.s(&u)),
+            coq_opt(a, |a| ti.s(&a))
         )
     });
 
-    let coq_in = format!(
-        "(C31.mkIn {} {} {} {} {})",
+    let coq_in = ti.wrap(format!(
+        "C31.mkIn {} {} {} {} {}",
         coq_hex(id.as_bytes()),
         coq_in_addrs,
         coq_ud_raw,
         oracle,
         coq_bool(rt_ok)
-    );
+    ));
     (coq_in, out)
 }
 
